@@ -240,8 +240,8 @@ def classify(case, detail):
         if case.get('algo') not in (1, 2) or not er or er.get('only') or not isinstance(detail, dict):
             return None
         ref = detail.get('decoder_refusals') or []
-        if not ref or any(r[0] != 'RSCodecError' for r in ref):
-            return None
+        if not ref or any(not (str(r[0]).startswith('RSCodecError') and 'Chien Search' in str(r[0])) for r in ref):
+            return None     # only the third-party decoder's own locator failure; the facade's capacity check raises another message
         sym = '%02x' % er['sym']
         if all(sym in [r[1][i:i + 2] for i in range(0, len(r[1]), 2)] + [r[2][i:i + 2] for i in range(0, len(r[2]), 2)] for r in ref):
             return 'C01-codec12-mixed-errata-incomplete'
